@@ -350,6 +350,61 @@ if n_bu < 2:
     die("turbojpeg-mp.c: the row-pointer loops (bottomUp ? (h-i-1)*pitch : i*pitch) of tj3Compress/tj3Decompress changed")
 need(tjmp, r"if \(pitch == 0\) pitch = width \* tjPixelSize\[pixelFormat\];", "turbojpeg-mp.c: default pitch of tj3Compress changed")
 
+# ---------------------------------------------------------------- legacy flags -> parameters (processFlags)
+TJFLAGS = {}
+for name, val in re.findall(r"#define\s+(TJFLAG_[A-Z0-9]+)\s+(\d+)", tjh):
+    TJFLAGS[name] = int(val)
+PF_FIELDS = {"bottomUp": 0, "fastUpsample": 1, "noRealloc": 2, "fastDCT": 3, "jerr.stopOnWarning": 4, "progressive": 5, "scanLimit": 6}
+m = re.search(r"static\s+void\s+processFlags\s*\(\s*tjhandle\s+handle\s*,\s*int\s+flags\s*,\s*int\s+operation\s*\)\s*\{", tjc)
+if not m:
+    die("turbojpeg.c: processFlags(handle, flags, operation) not found")
+i = m.end(); depth = 1
+while depth and i < len(tjc):
+    depth += {"{": 1, "}": -1}.get(tjc[i], 0); i += 1
+pfb = tjc[m.end():i - 1]
+pfb = re.sub(r"tjinstance\s*\*this\s*=\s*\(tjinstance\s*\*\)handle\s*;", "", pfb, count=1)
+mm = re.search(r"#ifndef\s+NO_PUTENV(.*?)#endif", pfb, re.S)
+if mm:
+    inner = re.sub(r"(?:else\s+)?if\s*\(flags\s*&\s*TJFLAG_FORCE\w+\)\s*PUTENV_S\(\"\w+\",\s*\"1\"\)\s*;", "", mm.group(1))
+    if inner.strip():
+        die("turbojpeg.c: processFlags: the NO_PUTENV block contains more than PUTENV_S statements")
+    pfb = pfb[:mm.start()] + pfb[mm.end():]
+m = re.search(r"enum\s*\{\s*COMPRESS\s*=\s*(\d+)\s*,\s*DECOMPRESS\s*=\s*(\d+)\s*\}", tjc)
+if not m:
+    die("turbojpeg.c: enum { COMPRESS = .., DECOMPRESS = .. } not found")
+OP_COMPRESS, OP_DECOMPRESS = int(m.group(1)), int(m.group(2))
+PF_ENTRIES = []   # (field, kind, mask1, mask2, value): kind 0 assign !!(flags&m1); 1 set-only if (flags&m1) field=value; 2 fastDCT rule
+pos = 0
+SH_ASSIGN = re.compile(r"\s*this->([\w.]+)\s*=\s*!!\(flags\s*&\s*(TJFLAG_\w+)\)\s*;")
+SH_SET = re.compile(r"\s*if\s*\(flags\s*&\s*(TJFLAG_\w+)\)\s*this->([\w.]+)\s*=\s*(\w+)\s*;")
+SH_DCT = re.compile(r"\s*if\s*\(operation\s*==\s*COMPRESS\)\s*\{\s*if\s*\(this->quality\s*>=\s*(\d+)\s*\|\|\s*flags\s*&\s*(TJFLAG_\w+)\)\s*this->fastDCT\s*=\s*FALSE\s*;"
+                    r"\s*else\s*this->fastDCT\s*=\s*TRUE\s*;\s*\}\s*else\s*this->fastDCT\s*=\s*!!\(flags\s*&\s*(TJFLAG_\w+)\)\s*;")
+while pfb[pos:].strip():
+    for kind, rx in ((0, SH_ASSIGN), (1, SH_SET), (2, SH_DCT)):
+        mm = rx.match(pfb, pos)
+        if mm:
+            break
+    else:
+        die("turbojpeg.c: processFlags: statement of unknown shape: '%s'" % " ".join(pfb[pos:pos + 90].split()))
+    if kind == 0:
+        fld, fl = mm.group(1), mm.group(2)
+        ent = (fld, 0, TJFLAGS.get(fl), 0, 0)
+    elif kind == 1:
+        fl, fld, val = mm.group(1), mm.group(2), mm.group(3)
+        v = {"TRUE": 1, "FALSE": 0}.get(val, None)
+        if v is None:
+            v = int(val) if re.fullmatch(r"\d+", val) else die("processFlags: value " + val)
+        ent = (fld, 1, TJFLAGS.get(fl), 0, v)
+    else:
+        ent = ("fastDCT", 2, TJFLAGS.get(mm.group(2)), TJFLAGS.get(mm.group(3)), int(mm.group(1)))
+    if ent[0] not in PF_FIELDS or ent[2] is None or ent[3] is None:
+        die("turbojpeg.c: processFlags: unknown field or flag in '%s'" % mm.group(0).strip())
+    PF_ENTRIES.append((PF_FIELDS[ent[0]],) + ent[1:])
+    pos = mm.end()
+n_calls = len(re.findall(r"processFlags\(handle,\s*flags,\s*(?:COMPRESS|DECOMPRESS)\)\s*;", tjc))
+if n_calls < 10:
+    die("turbojpeg.c: fewer than 10 legacy entry points call processFlags")
+
 # ---------------------------------------------------------------- SIMD (x86-64) instantiations, optional
 SIMD = {}
 SIMD_FIX = []
@@ -459,3 +514,12 @@ for k, tab in SIMD.items():
 P("Definition simd_dispatch_tables : list (list (Z * (Z * Z * Z * Z * Z))) := [%s]." % "; ".join(names))
 P("(* F_x_xxx equ v ; FIX(num/den) of the .asm files: (v, num, den) *)")
 P("Definition simd_fix_consts : list (Z * Z * Z) := [%s]." % "; ".join("(%d, %d, %d)" % (v, n, d) for _, v, n, d in SIMD_FIX))
+P("\n(* legacy TurboJPEG flags: processFlags() of turbojpeg.c, statement by statement, in order.")
+P("   fields: 0 bottomUp 1 fastUpsample 2 noRealloc 3 fastDCT 4 stopOnWarning 5 progressive 6 scanLimit")
+P("   (field, kind, mask1, mask2, value): kind 0: field = !!(flags & mask1); kind 1: if (flags & mask1) field = value;")
+P("   kind 2: field = operation == COMPRESS ? !(quality >= value || flags & mask1) : !!(flags & mask2) *)")
+for n, v in sorted(TJFLAGS.items(), key=lambda kv: kv[1]):
+    P("Definition %s : Z := %d." % (n, v))
+P("Definition OP_COMPRESS : Z := %d.\nDefinition OP_DECOMPRESS : Z := %d." % (OP_COMPRESS, OP_DECOMPRESS))
+P("Definition process_flags_entries : list (Z * Z * Z * Z * Z) :=\n  [%s]." % ";\n   ".join("(%d, %d, %d, %d, %d)" % e for e in PF_ENTRIES))
+P("Definition process_flags_callers : Z := %d." % n_calls)
